@@ -88,3 +88,8 @@ add("C18", "exploration",
     "Held on the executions explored (apart from the three open known findings on embedded structs and duplicate JSON names): generation terminated for every generated type and style, every document was a valid 2020-12 schema with all $ref values resolving inside it, property names equalled encoding/json's field names, fully populated values were accepted, typed handlers received exactly the sent value (integers to +-2^53), and schemas read through tools/list equalled the registered ones.",
     "A recursive pointer field without omitempty has no finite fully populated value; only termination, meta-schema, $ref and names are judged there. Open known findings: C18|stage1|style=*|feature=embedded|*, embedded-ptr, dup-name.",
     "DESIGN.md section 4 C18")
+add("C08", "fault_enumeration",
+    "runtime monitoring with fault injection: an HTTP-aware TCP fault proxy (close / RST / stall / truncate at every message boundary and sampled byte offsets), a scripted raw-TCP server (delayed / withheld terminating chunk), stdio children killed / exiting / closing stdout at every point, context cancellation and deadlines at seeded instants, yield-controlled races in the stdio and legacy clients; oracles: call outcome per fault (error unless the complete own answer was delivered), bounded return with goroutine-dump corroboration, leak diff of goroutine table / fds / persistConn loops / child processes / pending tables by counts at quiescence over N and 2N",
+    "Held on the executions explored: for every (transport, fault kind, injection point) cell and pending-call count every pending call ended with an error (or with its own complete answer), within the watchdog, with the right context error on cancellation; after Close, and on the server after the peers vanished, goroutines with library frames, connections, fds, child processes and pending-table entries were back at the baseline for N and 2N calls.",
+    "Byte offsets and cancellation instants are sampled (coverage.exhaustive is not claimed). 'Promptly' is the bounded restatement <= 10 s with a dump showing the call parked in a library frame. Pooled idle keep-alive connections are not leaks (CloseIdleConnections is called first).",
+    "DESIGN.md section 4 C08")
